@@ -91,6 +91,8 @@ RoutePV(r, a, p) == IF r.sets = <<>> THEN {"Y"} ELSE AnyPV(r.sets, a, p)
 (*          [e |-> "Fallback", l, vis]  the fallback of list l invoked     *)
 (*          [e |-> "Abort", k]   matching abandoned: timeout eof full merr *)
 (*          [e |-> "Return"]     the compiled handler returned             *)
+(*          [e |-> "Buf", n]     (harness observation, before Return) the  *)
+(*                               largest matching buffer any matcher saw   *)
 (***************************************************************************)
 Is(ev, name) == ev.e = name
 MaxOf(S, dflt) == IF S = {} THEN dflt ELSE CHOOSE x \in S : \A y \in S : y <= x
@@ -114,7 +116,7 @@ R3(cf, h) == \A k \in 1..Len(h) : Is(h[k], "Handle") =>
 
 \* R4 / R6: after a terminal handler, an abort or a handler error nothing else runs
 Final(ev) == Is(ev, "Term") \/ Is(ev, "Abort") \/ Is(ev, "HErr")
-R4(cf, h) == \A k \in 1..Len(h) : Final(h[k]) => \A j \in (k+1)..Len(h) : Is(h[j], "Return") \/ Is(h[j], "Branch")
+R4(cf, h) == \A k \in 1..Len(h) : Final(h[k]) => \A j \in (k+1)..Len(h) : Is(h[j], "Return") \/ Is(h[j], "Branch") \/ Is(h[j], "Buf")
 
 \* R5a: the fallback runs at most once per list, and only when every remaining route
 \*      may be decided as not matching on the visible bytes
@@ -193,6 +195,10 @@ B2(cf, h, limit, chunk) ==
   \A k \in 1..Len(h) : (Is(h[k], "Handle") \/ Is(h[k], "Fallback") \/ Is(h[k], "Enter"))
                           => h[k].vis <= limit + chunk - 1
 
+\* B3: the largest matching buffer any matcher saw on any Connection of the client (recorded by the harness
+\*     as [e |-> "Buf", n]) stays within the limit plus one prefetch chunk
+B3(cf, h, limit, chunk) == \A k \in 1..Len(h) : Is(h[k], "Buf") => h[k].n <= limit + chunk - 1
+
 \* names of the violated clauses (empty set = history accepted); used by the trace spec
 Violations(cf, h, limit, chunk) ==
   (IF R1(cf, h) THEN {} ELSE {"R1 handlers ran although no matcher set can match the visible bytes"})
@@ -209,5 +215,6 @@ Violations(cf, h, limit, chunk) ==
   \cup (IF D3(cf, h, limit) THEN {} ELSE {"D3 matching abandoned without cause"})
   \cup (IF B1(cf, h, limit, chunk) THEN {} ELSE {"B1 more than limit+chunk-1 bytes pulled before any handler"})
   \cup (IF B2(cf, h, limit, chunk) THEN {} ELSE {"B2 more than limit+chunk-1 bytes buffered"})
+  \cup (IF B3(cf, h, limit, chunk) THEN {} ELSE {"B3 a matching buffer grew beyond limit+chunk-1 bytes"})
 
 =============================================================================
